@@ -84,7 +84,11 @@ func saverMain(args []string) int {
 	if err != nil {
 		return 3
 	}
-	for g := 1; g <= gens; g++ {
+	first := 1
+	if len(args) > 4 {
+		first, _ = strconv.Atoi(args[4])
+	}
+	for g := first; g <= gens; g++ {
 		d := genSnapshot(seed, g, scale)
 		if err := st.Save(d); err != nil {
 			_ = os.Mkdir(filepath.Join(dir, fmt.Sprintf("err-%d", g)), 0o755)
@@ -401,6 +405,24 @@ func runC09(tier string, seed int64) *Outcome {
 				mu.Lock()
 				states[sit]++
 				mu.Unlock()
+			}
+			// the process restarts after the crash / fault and saves again (a small snapshot): whatever the interrupted save
+			// left behind must not leak into the next one
+			if err == nil && len(res.Findings) == 0 && jb.kind != "randkill" {
+				restart := exec.Command(exe, "saver", dir, fmt.Sprint(seed), "8", "2", "8")
+				restart.Env = append(os.Environ(), "GOMAXPROCS=1")
+				_ = restart.Run()
+				if st2, err2 := freshInspect(exe, dir); err2 == nil {
+					res.Evaluations++
+					if _, statErr := os.Stat(filepath.Join(dir, "ack-8")); statErr == nil {
+						sig, detail := judgeDir(st2, seed, 2, []int{8}, false)
+						if sig != "" {
+							res.Findings = append(res.Findings, drv.Finding{Props: []string{"C09"}, Sig: sig, Detail: fmt.Sprintf("%s, then a restarted process saved a small snapshot successfully: %s (state %+v)", desc, detail, st2), Step: -1})
+							res.Sample = map[string]any{"injection": desc, "then": "restart + save of generation 8", "state": st2}
+						}
+						res.Situations = append(res.Situations, fmt.Sprintf("save after %s %s: visible=gen%d", jb.kind, jb.syscall, st2.Gen))
+					}
+				}
 			}
 			_ = os.RemoveAll(dir)
 			mu.Lock()
